@@ -718,6 +718,24 @@ fn dump_body<'tcx>(tcx: TyCtxt<'tcx>, def: LocalDefId) {
     if matches!(tcx.def_kind(owner), DefKind::Fn | DefKind::AssocFn) {
         let vis = tcx.visibility(owner);
         let _ = write!(out, ",\"pub\":{}", vis.is_public());
+        // #[target_feature(enable = "..")] of the owning function (C09: feature-gated dispatch)
+        let attrs = tcx.codegen_fn_attrs(owner);
+        if !attrs.target_features.is_empty() {
+            out.push_str(",\"tf\":[");
+            let mut first = true;
+            for f in attrs.target_features.iter() {
+                // only what the attribute names; features the ISA implies are the rules' business
+                if format!("{:?}", f.kind) == "Implied" {
+                    continue;
+                }
+                if !first {
+                    out.push(',');
+                }
+                first = false;
+                esc(&f.name.to_string(), &mut out);
+            }
+            out.push(']');
+        }
     }
     out.push_str(",\"file\":");
     esc(&file, &mut out);
